@@ -223,6 +223,26 @@ def check_props_file(prop_id: str):
             "unprinted": [n for n in names if n not in pa_names and n.split(".")[-1] not in pa_names]}
 
 
+def run_coqchk(units, timeout=2400):
+    """Independent re-check of the compiled property files and everything they depend on (thorough tier).
+    Returns dict(ok, axioms=[...], summary=text)."""
+    mods = [f"RV.Props.{u}" for u in units]
+    rc, out = sh(["timeout", str(timeout), "coqchk", "-silent", "-o", "-Q", ".", "RV"] + mods, cwd=COQ, timeout=timeout + 30)
+    summ = out[out.find("CONTEXT SUMMARY"):] if "CONTEXT SUMMARY" in out else out[-1500:]
+    axioms, cur = [], None
+    for line in summ.splitlines():
+        if line.startswith("* "):
+            cur = line[2:].split(":")[0]
+            rest = line.split(":", 1)[1].strip() if ":" in line else ""
+            if cur == "Axioms" and rest and rest != "<none>":
+                axioms.append(rest)
+        elif cur == "Axioms" and line.strip():
+            axioms.append(line.strip())
+    bad = [k for k in ("type-in-type", "unsafe (co)fixpoints", "positivity is assumed")
+           if re.search(re.escape(k) + r"[^\n]*:\s*(?!<none>)\S", summ)]
+    return {"ok": rc == 0 and not bad, "rc": rc, "axioms": axioms, "unsafe": bad, "summary": summ[-1200:]}
+
+
 # --------------------------------------------------------------------------
 # extraction + OCaml driver
 # --------------------------------------------------------------------------
@@ -448,6 +468,12 @@ class Ctx:
                     allres["ok"] = False
                     bad_t = [t["name"] for t in res["theorems"] if not t["accepted"]]
                     allres.setdefault("what", f"Props/{u}.v no longer checks (line {res.get('failed_line')}; first unaccepted: {bad_t[:1]})")
+            if allres["ok"] and self.tier == "thorough" and os.environ.get("VERIF_NO_COQCHK") != "1":
+                chk = run_coqchk(self.units)
+                allres["coqchk"] = chk
+                if not chk["ok"]:
+                    allres["ok"] = False
+                    allres["what"] = "coqchk rejected the compiled property files: " + chk["summary"][-300:]
             self.proof = allres
             for u in wire_units:
                 self.exes[u] = build_model(u)
@@ -515,6 +541,9 @@ class Ctx:
             "checker_cmd": "cd /verif/coq && make " + " ".join(f"Props/{u}.vo" for u in self.units) + " && coqc -Q . RV Props/<unit>.v   (full .vo build, Coq 8.16.1 kernel; Print Assumptions after every theorem)",
             "theorems": [{"name": t["name"], "accepted": t["accepted"], "axioms": t["axioms"]} for t in thms],
             "proof_stage": self.proof.get("stage"),
+            "coqchk": ({"ok": self.proof["coqchk"]["ok"], "axioms_of_loaded_libraries": self.proof["coqchk"]["axioms"],
+                        "cmd": "coqchk -silent -o -Q . RV " + " ".join(f"RV.Props.{u}" for u in self.units)}
+                       if self.proof.get("coqchk") else "thorough tier only"),
             "correspondence_disagreements": len(self.tie_broken),
             "oracle_failures": len(self.failures),
             "known_findings_replayed": self.known_lines,
